@@ -590,3 +590,106 @@ theorem msPairs_mem (n : Nat) (p : (Nat × Nat) × (Nat × Nat)) :
   · rintro ⟨hi, hj, hk, hl, hc⟩; exact ⟨p.1.1, hi, p.1.2, hj, p.2.1, hk, p.2.2, ⟨hl, hc⟩, rfl⟩
 
 end Gen
+
+namespace Gen
+open Pen
+
+/-! ## binary paint shop: the Ising energy counts the colour changes -/
+
+/-- colour sign of a car at a position: the second occurrence is painted with the other colour
+    (`sample_to_coloring`: `sample[car]` on the first visit, `-sample[car]` afterwards) -/
+def colAt (x : Label → Rat) (seen : List Label) (c : Label) : Rat := (if c ∈ seen then -1 else 1) * x c
+
+/-- twice the number of colour changes along the sequence: `Σ_t (1 − col_t·col_{t+1})` (colours `±1`) -/
+def twiceChanges (x : Label → Rat) : List Label → List Label → Rat
+  | seen, c1 :: c2 :: rest => (1 - colAt x seen c1 * colAt x (c1 :: seen) c2) + twiceChanges x (c1 :: seen) (c2 :: rest)
+  | _, _ => 0
+
+/-- number of positions where a car is directly followed by itself -/
+def sameAdj : List Label → Nat
+  | c1 :: c2 :: rest => (if c1 = c2 then 1 else 0) + sameAdj (c2 :: rest)
+  | _ => 0
+
+theorem countL_cons (c d : Label) (l : List Label) : countL c (d :: l) = (if d = c then 1 else 0) + countL c l := by
+  unfold countL
+  simp only [List.filter_cons]
+  split <;> simp_all <;> omega
+
+theorem countL_pos_of_mem (c : Label) (l : List Label) (h : c ∈ l) : 1 ≤ countL c l := by
+  induction l with
+  | nil => simp at h
+  | cons d r ih =>
+    rw [countL_cons]
+    rcases List.mem_cons.1 h with h | h
+    · subst h; simp
+    · have := ih h; omega
+
+theorem countL_zero_of_not_mem (c : Label) (l : List Label) (h : c ∉ l) : countL c l = 0 := by
+  induction l with
+  | nil => rfl
+  | cons d r ih =>
+    rw [countL_cons]
+    simp only [List.mem_cons, not_or] at h
+    rw [ih h.2, if_neg (fun e => h.1 e.symm)]
+
+/-- **`2 × (colour changes) = (L − 1) + E(s) + #(car directly followed by itself)`** for every sequence in which no
+    car occurs more than twice, at every spin sample — the Ising energy is the paint-shop objective up to a constant -/
+theorem bpspGo_changes (x : Label → Rat) (hx : ∀ v, x v * x v = 1) (seq seen : List Label)
+    (H : ∀ c, countL c seen + countL c seq ≤ 2) :
+    twiceChanges x seen seq = (((seq.length - 1 : Nat)) : Rat) + evalBag x (bpspGo seen seq) + ((sameAdj seq : Nat) : Rat) := by
+  induction seq generalizing seen with
+  | nil => simp [twiceChanges, bpspGo, sameAdj, evalBag]; grind
+  | cons c1 t ih =>
+    cases t with
+    | nil => simp [twiceChanges, bpspGo, sameAdj, evalBag]; grind
+    | cons c2 rest =>
+      have H' : ∀ c, countL c (c1 :: seen) + countL c (c2 :: rest) ≤ 2 := by
+        intro c
+        have := H c
+        rw [countL_cons c c1 (c2 :: rest)] at this
+        rw [countL_cons c c1 seen]
+        omega
+      have ihh := ih (c1 :: seen) H'
+      simp only [twiceChanges, bpspGo, sameAdj, evalBag_append, List.length_cons] at ihh ⊢
+      rw [ihh]
+      have hlen : (((rest.length + 1 + 1 - 1 : Nat)) : Rat) = (((rest.length + 1 - 1 : Nat)) : Rat) + 1 := by
+        have : rest.length + 1 + 1 - 1 = (rest.length + 1 - 1) + 1 := by omega
+        rw [this, Rat.natCast_add]; rfl
+      rw [hlen]
+      have h1 := H c1
+      have h2 := H c2
+      rw [countL_cons c1 c1, countL_cons c1 c2] at h1
+      rw [countL_cons c2 c1, countL_cons c2 c2] at h2
+      simp only [if_true] at h1 h2
+      by_cases hc : c1 = c2
+      · subst hc
+        simp only [if_true] at h1
+        have hns : c1 ∉ seen := fun hm => by have := countL_pos_of_mem c1 seen hm; omega
+        simp only [colAt, if_neg hns, List.mem_cons, true_or, if_true, ne_eq, not_true_eq_false, if_false, evalBag]
+        have := hx c1
+        rw [Rat.natCast_add]
+        grind
+      · simp only [if_neg hc, ne_eq, hc, not_false_eq_true, if_true, evalBag, PTerm.eval]
+        have hc' : ¬ c2 = c1 := fun e => hc e.symm
+        have hm2 : (c2 ∈ c1 :: seen) ↔ c2 ∈ seen := by simp [hc']
+        have hx1 := hx c1
+        have hx2 := hx c2
+        by_cases m1 : c1 ∈ seen <;> by_cases m2 : c2 ∈ seen
+        · have k1 : countL c1 seen = 1 := by have := countL_pos_of_mem c1 seen m1; omega
+          have k2 : countL c2 seen = 1 := by have := countL_pos_of_mem c2 seen m2; omega
+          simp only [colAt, if_pos m1, hm2, if_pos m2, k1, k2]
+          simp; grind
+        · have k1 : countL c1 seen = 1 := by have := countL_pos_of_mem c1 seen m1; omega
+          have k2 : countL c2 seen = 0 := countL_zero_of_not_mem c2 seen m2
+          simp only [colAt, if_pos m1, hm2, if_neg m2, k1, k2]
+          simp; grind
+        · have k1 : countL c1 seen = 0 := countL_zero_of_not_mem c1 seen m1
+          have k2 : countL c2 seen = 1 := by have := countL_pos_of_mem c2 seen m2; omega
+          simp only [colAt, if_neg m1, hm2, if_pos m2, k1, k2]
+          simp; grind
+        · have k1 : countL c1 seen = 0 := countL_zero_of_not_mem c1 seen m1
+          have k2 : countL c2 seen = 0 := countL_zero_of_not_mem c2 seen m2
+          simp only [colAt, if_neg m1, hm2, if_neg m2, k1, k2]
+          simp; grind
+
+end Gen
